@@ -195,6 +195,8 @@ def realize(x, t):
             return [x["in_out"], np.array(x["centre"], dtype=float)] + tail + [k]
         if t.cls == "nodeattrs":
             return {f: realize(v, t.fields[f]) for f, v in x.items() if v is not None}
+        if t.cls == "Monomer":
+            return pytypes.SimpleNamespace(**{f: realize(v, t.fields[f]) for f, v in x.items()})
         if t.cls == "Interaction":
             return pytypes.SimpleNamespace(**{f: realize(v, t.fields[f]) for f, v in x.items()})
         if ":" not in t.cls:
@@ -573,11 +575,15 @@ def conformance(n=40, seed=1):
                     args = {p: gen(t, rnd) for p, t in c.params.items()}
                     if not requires_hold(c, reg, args):
                         continue
+                if getattr(c, "ghost_interp", None):
+                    ghosts = dict(ghosts, **c.ghost_interp(args))      # meaning of the contract's ghost functions for these inputs
                 real_args = c.adapt(copy.deepcopy(args)) if c.adapt else {p: realize(copy.deepcopy(v), c.params[p]) for p, v in args.items()}
             except Exception as e:                      # noqa: BLE001
                 skipped[c.target] = f"inputs: {type(e).__name__}: {e}"
                 break
             try:
+                if "cls" in real_args and type(c.params.get("cls")).__name__ == "TConst":
+                    real_args = {k_: v_ for k_, v_ in real_args.items() if k_ != "cls"}      # classmethod: the class is bound already
                 res = fn(**real_args)
                 res = list(res) if hasattr(res, "__next__") else res
             except Exception as e:                      # noqa: BLE001
